@@ -44,8 +44,11 @@ def scratch(name):
 
 def run_check(d, prop, tier, seed='0'):
     env = dict(os.environ, REPO=d, VERIF_SEED=seed, VERIF_EVIDENCE_DIR=os.path.join(d, 'evidence'))
-    p = subprocess.run([os.path.join(VERIF, 'check'), prop, '--tier', tier], cwd=VERIF, env=env, stdout=subprocess.PIPE,
-                       stderr=subprocess.STDOUT, text=True, timeout=3600)
+    try:
+        p = subprocess.run([os.path.join(VERIF, 'check'), prop, '--tier', tier], cwd=VERIF, env=env, stdout=subprocess.PIPE,
+                           stderr=subprocess.STDOUT, text=True, timeout=3600)
+    except subprocess.TimeoutExpired:
+        return 2, ['MACHINERY: the check did not finish within 3600 s']
     lines = [l for l in p.stdout.splitlines() if l.startswith(('VIOLATION', 'OK', 'KNOWN', 'MACHINERY'))]
     return p.returncode, lines
 
